@@ -88,13 +88,18 @@ Fixpoint observe (bad : list N) (steps : list step) (outs : list (option presult
   | _, _ => []
   end.
 
-(* the histories the theorems are about: announced headers carry their own hash (newIncompleteBlock
-   computes it), at most 12 results per Process call (slices.SortFunc is insertion sort up to 12),
-   every request asks for bodies (the requests full sync makes are header+body+justification or
+(* the histories the theorems are about: at most 12 ready fragments per Process call
+   (slices.SortFunc is the stable insertion sort of the model up to 12 elements; a result with a
+   header request yields at most one fragment, a body-only result at most one per block), every
+   request asks for bodies (the requests full sync makes are header+body+justification or
    body+justification) *)
 Definition result_wf_b (r : result) : bool := req_field (r_req r) f_body.
+Definition result_weight (r : result) : nat :=
+  if req_field (r_req r) f_header then 1%nat else length (r_resp r).
 Definition steps_wf_b (steps : list step) : bool :=
   forallb (fun s => match s with
-                    | SProcess rs => (length rs <=? 12)%nat && forallb result_wf_b rs
+                    | SProcess rs =>
+                      (fold_right (fun r acc => (result_weight r + acc)%nat) 0%nat rs <=? 12)%nat
+                      && forallb result_wf_b rs
                     | _ => true
                     end) steps.
